@@ -119,31 +119,6 @@ Definition world (es : list (str * node)) : node := Dir [(s_p, Dir es)].
 Definition migrate0 (es : list (str * node)) : result unit * node := apply_migrations (world es) CWD0 P0.
 Definition s_ws : str := [119; 115]%N.       (* "ws" *)
 
-Record legacy_pre (es : list (str * node)) (c : cfgrec) (name : str) : Prop := {
-  lp_rc : alookup s_rc es = Some (File (FCfg c));
-  lp_name : cproj c = Some name;
-  lp_ver : cv c = None \/ cv c = Some 0%Z \/ cv c = Some 1%Z;
-  lp_nodot : alookup s_dotsignac es = None;
-  lp_nocollide : forall w, cws c = Some w -> w <> s_workspace -> alookup s_workspace es = None
-}.
-
-(* F17: the full statement "every legacy project without collision migrates" is FALSE of the model:
-   a custom workspace_dir that was never created makes os.replace fail. *)
-Definition f17_cfg : cfgrec := {| cv := Some 1%Z; cproj := Some [120%N]; cws := Some s_ws |}.
-Definition f17_es : list (str * node) := [(s_rc, File (FCfg f17_cfg))].
-
-Lemma f17_refuted : exists es c name,
-  legacy_pre es c name /\
-  migrate0 es = (Err ERuntimeError, world es) /\
-  fst (get_project (world es) CWD0 P0 true) = Err EIncompatibleSchemaVersion.
-Proof.
-  exists f17_es, f17_cfg, [120%N]. split; [|split].
-  - constructor; try reflexivity.
-    + right. right. reflexivity.
-  - vm_compute. reflexivity.
-  - vm_compute. reflexivity.
-Qed.
-
 (* ------------------------------------------------------------------ path walk, one step at a time
    (fuel kept abstract so that simplification never unfolds the walk into unexplored branches) *)
 Definition FUEL5 : nat := 594%nat.
@@ -555,11 +530,14 @@ Record mig_pre (es : list (str * node)) (c : cfgrec) (name : str) : Prop := {
   mp_doc : alookup s_doc es = None \/ exists kvs, alookup s_doc es = Some (File (FJson (JObj kvs)));
   mp_hist : fileish (alookup s_hist_old es);
   mp_cache : fileish (alookup s_cache_old es);
-  (* the workspace: default name, or a custom single-component name whose directory EXISTS
-     (this is the side condition F17 violates) and no 'workspace' entry in the way *)
+  (* the workspace: default name, or a custom single-component name with no 'workspace' entry in
+     the way; its directory exists, or was never created (then the name must not be one of the
+     entries the migration itself creates) *)
   mp_ws : cws c = None \/ cws c = Some s_workspace \/
-          exists w ws, cws c = Some w /\ cleanb w = true /\ w <> s_workspace /\
-                       alookup w es = Some (Dir ws) /\ alookup s_workspace es = None
+          exists w, cws c = Some w /\ cleanb w = true /\ w <> s_workspace /\
+                    alookup s_workspace es = None /\
+                    ((exists ws, alookup w es = Some (Dir ws)) \/
+                     (alookup w es = None /\ ~ In w [s_dotsignac; s_doc; s_hist_old; s_cache_old]))
 }.
 
 Lemma clean_hist_old : cleanb s_hist_old = true. Proof. reflexivity. Qed.
@@ -583,6 +561,14 @@ Proof.
   intros es w k ws Lw Lk E. subst k. rewrite Lw in Lk. destruct Lk as [Lk|[d Lk]]; discriminate.
 Qed.
 
+Lemma neq_rc_of : forall (es : list (str * node)) w x,
+  alookup s_rc es = Some x ->
+  ((exists ws, alookup w es = Some (Dir ws)) \/ alookup w es = None) ->
+  (forall ws, x <> Dir ws) -> w <> s_rc.
+Proof.
+  intros es w x Lrc [[ws Lw]|Lw] Nx E; subst w; rewrite Lrc in Lw; [inversion Lw; eapply Nx; eauto | discriminate].
+Qed.
+
 Lemma fileish_cases : forall x, fileish x -> x = None \/ exists d, x = Some (File d).
 Proof. intros [[d|e|t]|] H; simpl in H; try contradiction; eauto. Qed.
 
@@ -600,23 +586,32 @@ Section Refine.
     alookup k esA = alookup k es.
   Proof.
     intros k Nk Lk. unfold esA, ws_entries.
-    destruct (mp_ws es c name PRE) as [W|[W|[w [ws [W [Hw [Nw [Lw Lws]]]]]]]]; rewrite W; try reflexivity.
-    rewrite (neq_eqb w s_workspace Nw), Lw.
-    pose proof (neq_by_lookup es w k ws Lw Lk) as Nwk.
-    rewrite alookup_aset_if, (neq_eqb k s_workspace Nk), alookup_aremove_if.
-    rewrite (neq_eqb k w (not_eq_sym Nwk)). reflexivity.
+    destruct (mp_ws es c name PRE) as [W|[W|[w [W [Hw [Nw [Lws [[ws Lw]|[Lw Nsp]]]]]]]]]; rewrite W; try reflexivity.
+    - rewrite (neq_eqb w s_workspace Nw), Lw.
+      pose proof (neq_by_lookup es w k ws Lw Lk) as Nwk.
+      rewrite alookup_aset_if, (neq_eqb k s_workspace Nk), alookup_aremove_if.
+      rewrite (neq_eqb k w (not_eq_sym Nwk)). reflexivity.
+    - rewrite (neq_eqb w s_workspace Nw), Lw. reflexivity.
   Qed.
 
   Lemma step_ws : move_workspace CWD0 P0 c (world es) = (Ok tt, world esA).
   Proof.
     unfold move_workspace, esA, ws_entries.
-    destruct (mp_ws es c name PRE) as [W|[W|[w [ws [W [Hw [Nw [Lw Lws]]]]]]]]; rewrite W.
+    destruct (mp_ws es c name PRE) as [W|[W|[w [W [Hw [Nw [Lws [[ws Lw]|[Lw Nsp]]]]]]]]]; rewrite W.
     - reflexivity.
     - reflexivity.
     - rewrite (neq_eqb w s_workspace Nw), Lw.
       assert (NL : nolink (alookup s_workspace es)) by (rewrite Lws; exact I).
       rewrite (exists_child es s_workspace clean_workspace NL), Lws.
+      assert (NLw : nolink (alookup w es)) by (rewrite Lw; exact I).
+      rewrite (exists_child es w Hw NLw), Lw.
       apply replace_child; auto; exact clean_workspace.
+    - (* the configured directory was never created: nothing to move (repaired F17) *)
+      rewrite (neq_eqb w s_workspace Nw), Lw.
+      assert (NL : nolink (alookup s_workspace es)) by (rewrite Lws; exact I).
+      rewrite (exists_child es s_workspace clean_workspace NL), Lws.
+      assert (NLw : nolink (alookup w es)) by (rewrite Lw; exact I).
+      rewrite (exists_child es w Hw NLw), Lw. reflexivity.
   Qed.
 
   Lemma rcA : alookup s_rc esA = Some (File (FCfg c)).
@@ -920,12 +915,12 @@ Proof.
   - lk. exact Hdoc.
   - lk. exact Hh.
   - lk. exact Hc.
-  - simpl cws. destruct Hws as [W|[W|[w [ws [W [Hw [Nw [Lw Lws]]]]]]]]; auto.
-    right. right. exists w, ws. repeat split; auto.
-    + rewrite alookup_aset_if.
-      assert (N : w <> s_rc) by (eapply neq_by_lookup; [exact Lw| right; eexists; exact Hrc]).
-      rewrite (neq_eqb w s_rc N). exact Lw.
+  - simpl cws. destruct Hws as [W|[W|[w [W [Hw [Nw [Lws Lw]]]]]]]; auto.
+    right. right. exists w. repeat split; auto.
     + lk. exact Lws.
+    + assert (N : w <> s_rc).
+      { apply (neq_rc_of es w _ Hrc); [destruct Lw as [L|[L _]]; auto | discriminate]. }
+      rewrite alookup_aset_if, (neq_eqb w s_rc N). exact Lw.
 Qed.
 
 Lemma version_at_start : forall es c name, mig_pre es c name -> forall g, g <> 1%Z ->
@@ -1058,7 +1053,7 @@ Section Post.
     - intros W. rewrite through by discriminate. unfold esA, ws_entries.
       destruct W as [W|W]; rewrite W; reflexivity.
     - intros w W Nw. rewrite through by discriminate.
-      destruct (mp_ws es c name PRE) as [W'|[W'|[w' [ws [W' [Hw [Nw' [Lw Lws]]]]]]]]; rewrite W in W'; try discriminate.
+      destruct (mp_ws es c name PRE) as [W'|[W'|[w' [W' [Hw [Nw' [Lws [[ws Lw]|[Lw Nsp]]]]]]]]]; rewrite W in W'; try discriminate.
       + inversion W'. contradiction.
       + inversion W'. subst w'.
         assert (Nrc : w <> s_rc) by (eapply neq_by_lookup; [exact Lw|right; eexists; exact (mp_rc es c name PRE)]).
@@ -1070,6 +1065,14 @@ Section Post.
         rewrite (through w Nrc Ndot Ndoc Nh Nc).
         unfold esA, ws_entries. rewrite W, (neq_eqb w s_workspace Nw), Lw.
         rewrite !alookup_aset_if, !alookup_aremove_if, !str_eqb_refl, (neq_eqb w s_workspace Nw). auto.
+      + (* never created: 'workspace' stays absent (Project() creates it on first open), w stays absent *)
+        inversion W'. subst w'.
+        assert (Nrc : w <> s_rc).
+        { intro E. subst w. rewrite (mp_rc es c name PRE) in Lw. discriminate. }
+        apply not_in_cons in Nsp. destruct Nsp as [Ndot Nsp]. apply not_in_cons in Nsp. destruct Nsp as [Ndoc Nsp].
+        apply not_in_cons in Nsp. destruct Nsp as [Nh Nsp]. apply not_in_cons in Nsp. destruct Nsp as [Nc _].
+        rewrite (through w Nrc Ndot Ndoc Nh Nc).
+        unfold esA, ws_entries. rewrite W, (neq_eqb w s_workspace Nw), Lw. rewrite Lws. auto.
     - unfold fin, bump2_entries. lk. apply rcG; exact PRE.
     - unfold fin, bump2_entries, mig_entries. lk.
       rewrite move_entry_other by discriminate.
@@ -1133,9 +1136,10 @@ Proof.
     constructor.
     - intro W. rewrite (Q1 W). apply T. discriminate.
     - intros w W Nw. destruct (Q2 w W Nw) as [A B]. split; auto. rewrite A. apply T.
-      destruct (mp_ws es c name PRE) as [W'|[W'|[w' [ws [W' [Hw [Nw' [Lw Lws]]]]]]]]; rewrite W in W'; try discriminate.
+      destruct (mp_ws es c name PRE) as [W'|[W'|[w' [W' [Hw [Nw' [Lws Lw]]]]]]]; rewrite W in W'; try discriminate.
       + inversion W'. contradiction.
-      + inversion W'. subst w'. eapply neq_by_lookup; [exact Lw|right; eexists; exact (mp_rc es c name PRE)].
+      + inversion W'. subst w'.
+        apply (neq_rc_of es w _ (mp_rc es c name PRE)); [destruct Lw as [L|[L _]]; auto | discriminate].
     - exact Q3.
     - exact Q4.
     - exact Q5.
@@ -1152,8 +1156,8 @@ Proof.
   apply post_step. exact PRE.
 Qed.
 
-(* migrate_preserves_jobs (partial: under mig_pre, whose clause mp_ws demands that a configured
-   custom workspace directory exists) *)
+(* migrate_preserves_jobs: every legacy project without collision migrates, also when the configured
+   custom workspace directory was never created (F17 repaired) *)
 Lemma migrate_preserves_jobs : forall es c name, mig_pre es c name ->
   (cv c = None \/ cv c = Some 0%Z \/ cv c = Some 1%Z) ->
   exists fin, migrate0 es = (Ok tt, world fin) /\ mig_post es c name fin.
@@ -1254,7 +1258,7 @@ Proof.
   rewrite GV. apply Z.ltb_lt in G. unfold SCHEMA. rewrite G. reflexivity.
 Qed.
 
-(* ------------------------------------------------------------------ refused migrations: collision, F17 *)
+(* ------------------------------------------------------------------ refused migration: collision *)
 Record fail_pre (es : list (str * node)) (c : cfgrec) (name w : str) : Prop := {
   fp_rc : alookup s_rc es = Some (File (FCfg c));
   fp_name : cproj c = Some name;
@@ -1262,8 +1266,7 @@ Record fail_pre (es : list (str * node)) (c : cfgrec) (name w : str) : Prop := {
   fp_w : cws c = Some w;
   fp_clean : cleanb w = true;
   fp_custom : w <> s_workspace;
-  fp_why : (exists x, alookup s_workspace es = Some x /\ nolink (Some x))        (* collision *)
-           \/ (alookup s_workspace es = None /\ alookup w es = None)              (* F17 *)
+  fp_why : exists x, alookup s_workspace es = Some x /\ nolink (Some x)         (* collision *)
 }.
 
 Lemma step_ws_fail : forall es c name w, fail_pre es c name w ->
@@ -1271,10 +1274,8 @@ Lemma step_ws_fail : forall es c name w, fail_pre es c name w ->
 Proof.
   intros es c name w F. unfold move_workspace. rewrite (fp_w es c name w F).
   rewrite (neq_eqb w s_workspace (fp_custom es c name w F)).
-  destruct (fp_why es c name w F) as [[x [Lx NL]]|[Lws Lw]].
-  - rewrite (exists_child es s_workspace clean_workspace) by (rewrite Lx; exact NL). rewrite Lx. eauto.
-  - rewrite (exists_child es s_workspace clean_workspace) by (rewrite Lws; exact I). rewrite Lws.
-    rewrite (replace_child_missing es w s_workspace (fp_clean es c name w F) clean_workspace Lw). eauto.
+  destruct (fp_why es c name w F) as [x [Lx NL]].
+  rewrite (exists_child es s_workspace clean_workspace) by (rewrite Lx; exact NL). rewrite Lx. eauto.
 Qed.
 
 Lemma loop_fail_from_1 : forall es c name w fuel, fail_pre es c name w -> cv c = Some 1%Z ->
@@ -1309,12 +1310,7 @@ Proof.
   intros es c name w F. destruct F as [Hrc Hn Hd Hw Hc Hcu Hy]. constructor; auto.
   - lk. reflexivity.
   - lk. exact Hd.
-  - destruct Hy as [[x [Lx NL]]|[Lws Lw]].
-    + left. exists x. split; auto. lk. exact Lx.
-    + right. split; [lk; exact Lws|].
-      rewrite alookup_aset_if.
-      assert (N : w <> s_rc) by (intro E; subst w; rewrite Hrc in Lw; discriminate).
-      rewrite (neq_eqb w s_rc N). exact Lw.
+  - destruct Hy as [x [Lx NL]]. exists x. split; auto. lk. exact Lx.
 Qed.
 
 (* a refused migration leaves every entry except (possibly) the version number in signac.rc *)
@@ -1490,7 +1486,7 @@ Lemma example_mig_pre : mig_pre ex_es ex_cfg0 [109; 121; 32; 112]%N.
 Proof.
   constructor; try reflexivity; try exact I.
   - right. eexists. reflexivity.
-  - right. right. exists s_ws, ex_ws. repeat split; try reflexivity. discriminate.
+  - right. right. exists s_ws. repeat split; try reflexivity; [discriminate|]. left. eexists. reflexivity.
 Qed.
 
 Lemma example_result :
@@ -1505,3 +1501,48 @@ Lemma example_result :
   | _ => false
   end = true.
 Proof. vm_compute. reflexivity. Qed.
+
+(* a migrated project whose workspace directory was never created opens too: Project() creates it *)
+Lemma opens_after_creating : forall fin cd,
+  alookup s_dotsignac fin = Some (Dir cd) ->
+  alookup s_config cd = Some (File (FCfg {| cv := Some 2%Z; cproj := None; cws := None |})) ->
+  alookup s_workspace fin = None ->
+  get_project (world fin) CWD0 P0 true = (Ok P0, world (aset s_workspace (Dir []) fin)).
+Proof.
+  intros fin cd Ld Lc Lw.
+  assert (NLc : nolink (alookup s_config cd)) by (rewrite Lc; exact I).
+  assert (ISF : os_isfile (world fin) CWD0 (cfgfn CWD0 P0) = true).
+  { unfold os_isfile. rewrite v2fn_eq.
+    rewrite (stat_child2 fin s_dotsignac s_config cd clean_dotsignac clean_config Ld NLc), Lc. reflexivity. }
+  unfold get_project. unfold os_exists. rewrite stat_P0. simpl negb. simpl andb. cbv iota.
+  unfold locate_config_dir. rewrite abspath_P0.
+  change (loc_up (S (length P0)) (world fin) CWD0 P0) with
+    (if os_isfile (world fin) CWD0 (cfgfn CWD0 P0) then Some P0
+     else let up := dirname P0 in if str_eqb up P0 then None else loc_up (length P0) (world fin) CWD0 up).
+  rewrite ISF. unfold project_open. rewrite ISF.
+  unfold read_cfg. rewrite v2fn_eq.
+  rewrite (stat_child2 fin s_dotsignac s_config cd clean_dotsignac clean_config Ld NLc), Lc.
+  simpl declared_version. simpl Z.eqb. cbv iota. rewrite abspath_P0.
+  assert (NLw : nolink (alookup s_workspace fin)) by (rewrite Lw; exact I).
+  unfold os_isdir. rewrite (stat_child fin s_workspace clean_workspace NLw), Lw.
+  change (split_sl (path_join P0 s_workspace)) with [[]; s_p; s_workspace].
+  unfold world. simpl. rewrite Lw. simpl. destruct (alookup s_workspace fin); reflexivity.
+Qed.
+
+(* the former F17 witness now migrates, and the result opens *)
+Definition f17_cfg : cfgrec := {| cv := Some 1%Z; cproj := Some [120%N]; cws := Some s_ws |}.
+Definition f17_es : list (str * node) := [(s_rc, File (FCfg f17_cfg))].
+
+Lemma f17_repaired :
+  mig_pre f17_es f17_cfg [120%N] /\
+  migrate0 f17_es = (Ok tt, world (final_entries f17_cfg [120%N] f17_es)) /\
+  fst (get_project (world (final_entries f17_cfg [120%N] f17_es)) CWD0 P0 true) = Ok P0.
+Proof.
+  split; [|split].
+  - constructor; try reflexivity; try exact I.
+    + left. reflexivity.
+    + right. right. exists s_ws. repeat split; try reflexivity; [discriminate|].
+      right. split; [reflexivity|]. simpl. intros [E|[E|[E|[E|E]]]]; try discriminate. exact E.
+  - vm_compute. reflexivity.
+  - vm_compute. reflexivity.
+Qed.
